@@ -8,6 +8,7 @@ for P in $PROPS; do
   for D in seeded/${P}_*; do
     [ -f $D/patch.diff ] || continue
     SID=$(basename $D)
+    if [ -n "$ONLY" ]; then case " $ONLY " in *" $SID "*) ;; *) continue;; esac; fi
     S=$(python3-vt -c "import json; print(json.load(open('$D/meta.json')).get('summary',''))")
     N=$(python3-vt -c "import json; print(json.load(open('$D/meta.json')).get('needs_to_manifest',''))")
     CH=$(python3-vt -c "import json; print(','.join(json.load(open('$D/meta.json')).get('checks',{}).keys()) or '$P')")
